@@ -406,7 +406,7 @@ class Interp:
             v = self.place(m.group(1), p)
             if isinstance(v, Adt) and v.path.startswith('variant:'):
                 return ('disc-of-adt', v)
-            if isinstance(v, Adt) and v.path.split('::')[-1] in VARIANT_INDEX and ('Option' in v.path or 'Result' in v.path):
+            if isinstance(v, Adt) and v.path.split('::')[-1] in VARIANT_INDEX and any(t in v.path for t in ('Option', 'Result', 'ControlFlow', 'SerializableValue')):
                 return z3.IntVal(VARIANT_INDEX[v.path.split('::')[-1]])     # constructed Option / Result value
             n = self.name_of(v)
             if n is None:
